@@ -27,7 +27,7 @@ SHARD_WATCHDOG = {"quick": 1500, "thorough": 10800}
 
 
 def gen_cases(tier, seed):
-    per = 14 if tier == "quick" else 400
+    per = 24 if tier == "quick" else 900
     return [{"kind": k, "i": i, "seed": seed} for i in range(per) for k in G.SAMPLER_KINDS]
 
 
